@@ -322,7 +322,7 @@ pub assume_specification [<{q} as PartialEq>::eq] (a: &{q}, b: &{q}) -> (r: bool
     # ---------- functions ----------
     def fn(self, path, impl, fn, requires=(), ensures=(), loops=None, ghost=(), subst=(), trait=None,
            erase_async=False, mut_self=False, ret_name='r', decreases=None, keep_macros=(), external_body=False,
-           let_chains=True, fmt=True, hash_loops=(), vis='pub', recommends=(), trait_full=None, keep_arms=None, as_inherent=False, copied_loops=(), eta=()):
+           let_chains=True, fmt=True, hash_loops=(), vis='pub', recommends=(), trait_full=None, keep_arms=None, as_inherent=False, copied_loops=(), eta=(), closures=None):
         """Extract one fn verbatim and splice its contract.  Returns a list of Seg (to be put in an impl block).
         requires/ensures: list of (name, text).  loops: {ordinal: dict(invariant=[(name,text)], decreases=text, iter='vx_it')}
         ghost: list of (anchor, text) with anchor in ('body_start',), ('body_end',), ('loop_start',k), ('loop_end',k),
@@ -542,6 +542,21 @@ pub assume_specification [<{q} as PartialEq>::eq] (a: &{q}, b: &{q}) -> (r: bool
             def inside(x):
                 return any(ds[0] <= x[0] and x[1] <= ds[1] and (x[0], x[1]) != ds for ds in dropped_arm_spans)
             edits = [x for x in edits if not inside(x)]
+        # closure contracts: the k-th closure gets typed parameters, a named result and an ensures clause (annotation only;
+        # the closure body is untouched)
+        for k, spec in (closures or {}).items():
+            if k >= len(e['closures']):
+                raise LostAnchor(f'{fn}: closure #{k} not found')
+            C = e['closures'][k]
+            cs, ct = C['span']
+            cbs, cbt = C['body']
+            cid = f'{fid}.closure{k}.ensures'
+            self.clauses[cid] = {'kind': 'ensures', 'fn': fid, 'text': ' '.join(spec['ensures'].split())}
+            clause_list.append(cid)
+            is_block = src[cbs:cbs + 1] == b'{'
+            edits.append((cs, cbs, [Seg(spec['header'] + ' ensures '), Seg(spec['ensures'], clause=cid, fn=fid), Seg(' ' if is_block else ' { ')]))
+            if not is_block:
+                edits.append((cbt, cbt, [Seg(' }')]))
         # R13: constructor used as a function value -> eta-expanded closure (every occurrence)
         if eta:
             whole0 = src[a:b].decode()
@@ -614,6 +629,10 @@ pub assume_specification [<{q} as PartialEq>::eq] (a: &{q}, b: &{q}) -> (r: bool
                     gsegs.append(Seg(p))
             gsegs.append(Seg('\n'))
             edits.append((pos, pos, gsegs))
+        if external_body and e['inputs']:
+            s0i, t0i = e['inputs'][0]
+            if src[s0i:t0i].decode().replace(' ', '') == 'mutself':
+                edits.append((s0i, t0i, [Seg('self')]))     # binding mode of the receiver is not part of the signature
         if external_body:
             # signature + contract only; body replaced (an ASSUMPTION about this krill fn)
             edits = [x for x in edits if x[1] <= bs]
@@ -679,9 +698,7 @@ pub assume_specification [<{q} as PartialEq>::eq] (a: &{q}, b: &{q}) -> (r: bool
         """an associated/free const; with `ensures` it is emitted as Verus `exec const NAME: T ensures .. { init }` (R9)"""
         src, e = find(path, 'const', **{'impl': impl, 'const': name})
         a, b = e['item']
-        text = src[a:b].decode()
-        for at in e.get('attrs', []):
-            text = text.replace(src[at['span'][0]:at['span'][1]].decode(), '')
+        text = ''.join(sg.text for sg in _apply_edits(src, a, b, [(at['span'][0], at['span'][1], []) for at in e.get('attrs', [])]))
         self.extracted.append((path, f'const {(impl + "::") if impl else ""}{name}'))
         # an elided lifetime in a const type is 'static by definition; the verus! macro wants it spelled out
         text = re.sub(r'(const\s+\w+\s*:\s*)&(?!\')', r"\1&'static ", text)
